@@ -13,6 +13,7 @@ pub mod c08;
 pub mod c09;
 pub mod c11;
 pub mod c12;
+pub mod c12b;
 pub mod c13;
 pub mod c15;
 pub mod c16a;
